@@ -107,6 +107,7 @@ type Event struct {
 	Message                  MessageInfo
 	Payload                  []byte // decrypted/plain payload bytes
 	CC                       uint8  // completion code / RMCP+ status returned
+	RspData                  []byte // response data after the completion code (incl. echoed body code)
 	Reply                    []byte // datagram sent back (nil if dropped)
 }
 
@@ -149,6 +150,10 @@ type BMC struct {
 	// simulating a mismatch with what the console believes.
 	OverridePassword []byte
 	OverrideKG       []byte
+
+	// Intercept, if set, is consulted before any command handler; when it
+	// reports handled the given completion code and data are returned.
+	Intercept func(key CmdKey, sess *Session, lun uint8, data []byte) (handled bool, cc uint8, rsp []byte)
 
 	cfg         Config
 	rng         *rand.Rand
@@ -439,6 +444,13 @@ func (b *BMC) handleMessage(s *Session, m []byte, ev *Event) []byte {
 		h = b.builtins[key]
 	}
 	var rsp []byte
+	if b.Intercept != nil {
+		if handled, cc, r := b.Intercept(key, s, msg.RsLUN, clone(data)); handled {
+			ev.CC = cc
+			ev.RspData = append(clone(echo), r...)
+			return b.response(msg, ev.CC, append(clone(echo), r...))
+		}
+	}
 	switch {
 	case h == nil:
 		ev.CC = CCInvalidCommand
@@ -447,6 +459,7 @@ func (b *BMC) handleMessage(s *Session, m []byte, ev *Event) []byte {
 	default:
 		ev.CC, rsp = h(b, s, msg.RsLUN, clone(data))
 	}
+	ev.RspData = append(clone(echo), rsp...)
 	return b.response(msg, ev.CC, append(clone(echo), rsp...))
 }
 
